@@ -201,7 +201,32 @@ C13SelfTpls == << Tpl("https", "self", <<>>, TRUE, FALSE, <<>>),                
 C13SelfConn == << <<FALSE, "">>, <<FALSE, "http">>, <<FALSE, "https">>, <<TRUE, "">>, <<TRUE, "https">> >>   \* TLS?, X-Forwarded-Proto sent
 C13SelfPaths == << <<S, "x">>, <<S, "y">>, <<S>> >>
 
-C13Outer == {<<"redir", tp, cd, s, pp>> : tp \in DOMAIN C13Tpls, cd \in DOMAIN C13Codes, s \in DOMAIN C13Strips, pp \in DOMAIN C13Prepends}
+\* --- never sliced: what kind of request it is does not matter to a redirect route: other methods (HEAD, POST
+\* with a body), websocket upgrades, requests for an event stream.  Targets that name the instrumented upstream
+\* make a request that is proxied instead of redirected visible there.
+C13KindTpls == << Tpl("http", "upstream", <<S>>, FALSE, FALSE, <<>>),               \* http://<upstream>/
+                  Tpl("http", "upstream", <<S, "new">>, TRUE, TRUE, <<>>),          \* http://<upstream>/new/$path
+                  Tpl("https", "$host", <<>>, TRUE, FALSE, <<>>),                   \* https://$host$path
+                  Tpl("https", "t.example", <<>>, TRUE, FALSE, <<>>) >>             \* https://t.example$path
+C13Kinds    == << <<"GET", "http">>, <<"HEAD", "http">>, <<"POST", "http">>, <<"GET", "ws">>, <<"GET", "Ws">>,
+                  <<"GET", "sse">>, <<"POST", "sse">> >>                            \* method, kind (sse: Accept: text/event-stream)
+C13KindCodes == << Code("301", 301), Code("308", 308) >>
+C13KindPaths == << <<S, "a", S, "b">>, <<S, "a", "%2F", "b">> >>
+\* --- never sliced: strip / prepend values that need escaping (see C07), the client spelling the prefix either way
+C13EncTpls     == << Tpl("https", "t.example", <<>>, TRUE, TRUE, <<>>),             \* https://t.example/$path
+                     Tpl("https", "t.example", <<>>, TRUE, FALSE, <<>>),            \* https://t.example$path
+                     Tpl("https", "$host", <<S, "new">>, TRUE, FALSE, <<>>) >>      \* https://$host/new$path
+C13EncStrips   == << <<>>, <<S, "s", "U+F6", "k">>, <<S, "a", "^", "b">> >>
+C13EncPrepends == << <<>>, <<S, "s", "U+F6", "k">>, <<S, "a", "^", "b">> >>
+C13EncPaths    == << <<S, "s", "%C3%B6", "k", S, "a", "%2F", "b">>,
+                     <<S, "s", "%c3%b6", "k", S, "%41", "x">>,
+                     <<S, "a", "%5E", "b", S, "c", "%2f", "d">>,
+                     <<S, "plain", S, "a", "%2F", "b">>,
+                     <<S, "plain", S, "a", S, "b">> >>
+
+C13Outer == {<<"kinds", tp, cd, kd, 1>> : tp \in DOMAIN C13KindTpls, cd \in DOMAIN C13KindCodes, kd \in DOMAIN C13Kinds}
+            \cup {<<"encopt", tp, s, pp, 1>> : tp \in DOMAIN C13EncTpls, s \in DOMAIN C13EncStrips, pp \in DOMAIN C13EncPrepends}
+            \cup {<<"redir", tp, cd, s, pp>> : tp \in DOMAIN C13Tpls, cd \in DOMAIN C13Codes, s \in DOMAIN C13Strips, pp \in DOMAIN C13Prepends}
             \cup {<<"badcode", cd, s, 1, 1>> : cd \in DOMAIN C13BadCodes, s \in DOMAIN C13Strips}
             \cup {<<"self", tp, cn, 1, 1>> : tp \in DOMAIN C13SelfTpls, cn \in DOMAIN C13SelfConn}
 C13Inner(o) ==
@@ -214,6 +239,17 @@ C13Inner(o) ==
           t \in { u \in (DOMAIN C13Paths) \X (DOMAIN C13Queries) \X (DOMAIN C13RHosts) \X {1, 2} :
                   /\ ~C13Skip(o[2], o[4], o[5], u[1])
                   /\ Keep(o[2] + 5 * o[3] + 7 * o[4] + 11 * o[5] + 3 * u[1] + 13 * u[2] + 17 * u[3] + 19 * u[4]) } }
+      [] o[1] = "kinds" ->
+        { [BaseCase EXCEPT !.sub = "kinds", !.method = C13Kinds[o[4]][1], !.kind = C13Kinds[o[4]][2],
+                           !.tls = (t[3] = 2), !.query = C13Queries[t[2]], !.path = C13KindPaths[t[1]],
+                           !.routes = << [Ordinary(<<S>>, <<>>, <<>>, "", <<>>)
+                                          EXCEPT !.code = C13KindCodes[o[3]], !.tpl = C13KindTpls[o[2]]] >>] :
+          t \in (DOMAIN C13KindPaths) \X {1, 2} \X {1, 2} }
+      [] o[1] = "encopt" ->
+        { [BaseCase EXCEPT !.sub = "encopt", !.tls = (t[3] = 2), !.query = C13Queries[t[2]], !.path = C13EncPaths[t[1]],
+                           !.routes = << [Ordinary(<<S>>, C13EncStrips[o[3]], C13EncPrepends[o[4]], "", <<>>)
+                                          EXCEPT !.code = Code("301", 301), !.tpl = C13EncTpls[o[2]]] >>] :
+          t \in (DOMAIN C13EncPaths) \X {1, 2} \X {1, 2} }
       [] o[1] = "badcode" ->
         { [BaseCase EXCEPT !.sub = "badcode", !.tls = (t[3] = 2), !.query = C13Queries[t[2]],
                            !.path = C13Strips[o[3]] \o C13Paths[t[1]],
